@@ -7,12 +7,12 @@ import subprocess
 from typing import Any
 
 from ..boolform import equivalent_tests
-from ..model import AnalysisError, norm_src, walk_no_nested
+from ..model import AnalysisError, Repo, norm_src, walk_no_nested
 from ..pathq import fq
 from ..report import Ctx
-from ..symeval import BV, Obj, Opaque, SymEval, Tok, tok
+from ..symeval import BV, Obj, Opaque, SymEval, Tok, tok, _tag
 from ..tables import compare_table
-from .common import enclosing_map
+from .common import cached, char_alias, enclosing_map, tabulate_method
 
 WP = '_wcparse'
 
@@ -173,34 +173,45 @@ def rule_is_magic_guard(ctx: Ctx, rule: str) -> None:
 
 
 def rule_references_table(ctx: Ctx, rule: str) -> None:
-    ctx.text(rule, 'decision table of WcParse._references (what an escaped character becomes): `\\\\` -> abort / separator run / '
-                   'restricted separator / separator class (windows, name mode; bare class inside brackets) / literal backslash; `\\/` '
-                   'likewise with pathname; `\\.` defers to the dot handler; anything else is re.escape(c)')
+    ctx.text(rule, 'decision tables of the three _references methods (what an escaped character becomes), extracted by value -- the '
+                   'character is "the value read from the iterator", whatever the local is called, helpers are inlined: WcParse: `\\\\` -> '
+                   'abort / separator run + directory start / restricted separator / separator class (windows, name mode; bare class '
+                   'inside brackets) / literal backslash; `\\/` likewise with pathname; `\\.` puts the dot back and defers to the dot '
+                   'handler; anything else is re.escape(c).  WcSplit / _GlobSplit: inside a bracket an escaped separator raises '
+                   'PathNameException (backslash: bslash_abort; slash: pathname, always for the glob splitter); _GlobSplit returns the '
+                   'separator character it consumed and nothing otherwise')
     repo = ctx.repo
-    fi = repo.func(WP, 'WcParse._references')
-    ev = SymEval(repo, call_models={'re.escape': lambda fr, n, a, k: ('escape', repr(a[0])),
-                                    'builtins.next': lambda fr, n, a, k: Opaque('c')})
-
-    def am(node: ast.AST, fr: Any) -> Any:
-        s = norm_src(node).replace('"', "'")
-        return {"c == '\\\\'": 'c=bslash', "c == '/'": 'c=slash', "c == '.'": 'c=dot'}.get(s)
-    ev.atom_map = am
     one = repo.const(WP, '_ONE_OR_MORE')
+    BS, SL, DOT = "c='\\\\'", "c='/'", "c='.'"
+    vocab = {BS, SL, DOT, 'Q', 'BA', 'P', 'L', 'U'}
     attrs = {'bslash_abort': Opaque('BA'), 'pathname': Opaque('P'), 'in_list': Opaque('L'), 'unix': Opaque('U'),
              'sep': tok('sep'), 'bare_sep': tok('bare_sep'), 'seq_path': tok('seq_path'), 'after_start': Opaque('as'), 'dir_start': Opaque('ds')}
-    ev.call_models['next'] = lambda fr, n, a, k: Opaque('c')
-    paths = ev.tabulate(fi, {'i': Opaque('i'), 'sequence': Opaque('Q')}, Obj((WP, 'WcParse'), attrs))
+
+    def char_of(p: Any) -> Any:
+        for k, v in p.decisions.items():
+            if v and k.startswith('next(i) == '):
+                return ast.literal_eval(k[len('next(i) == '):])
+        return None
+
+    def norm(v: Any, p: Any) -> Any:
+        if isinstance(v, Opaque) and v.tag == 'next(i)':
+            c = char_of(p)
+            return c if c is not None else '<c>'
+        return v.parts if isinstance(v, Tok) else v
+
+    # ---- WcParse
+    fi = repo.func(WP, 'WcParse._references')
+    ev, paths = tabulate_method(repo, WP, 'WcParse._references', attrs, [Opaque('i'), Opaque('Q')],
+                                call_models={'re.escape': lambda fr, n, a, k: ('escape', _tag(a[0]))})
 
     def proj(p: Any) -> Any:
         if p.raised:
-            return ('raise', p.raised)
-        r = p.ret
-        started = p.attrs.get('dir_start') is True
-        val = r.parts if isinstance(r, Tok) else r
-        return (val, started)
+            back = [c for c in p.calls_to(lambda s: s.endswith('.rewind'))]
+            return ('raise', p.raised) + ((('rewind',) + tuple(back[0][1]),) if back else ())
+        return (norm(p.ret, p), p.attrs.get('dir_start') is True and p.attrs.get('after_start') is False)
 
     def oracle(g: Any) -> Any:
-        if g('c=bslash'):
+        if g(BS):
             if g('Q') and g('BA'):
                 return ('raise', 'PathNameException')
             if g('BA'):
@@ -210,7 +221,7 @@ def rule_references_table(ctx: Ctx, rule: str) -> None:
             if not g('U'):
                 return ((('sep',) if not g('Q') else ('bare_sep',)), False)
             return ('\\\\', False)
-        if g('c=slash'):
+        if g(SL):
             if g('Q') and g('P'):
                 return ('raise', 'PathNameException')
             if g('P'):
@@ -218,13 +229,41 @@ def rule_references_table(ctx: Ctx, rule: str) -> None:
                     return (('sep', one), True)
                 return (('seq_path', 'sep'), False)
             return ((('sep',) if not g('Q') else ('bare_sep',)), False)
-        if g('c=dot'):
-            return ('raise', 'DotException')
-        return (('escape', '<c>'), False)
-    ok, why, rows = compare_table(paths, ev.bitnames, oracle, proj, {'c=bslash', 'c=slash', 'c=dot', 'Q', 'BA', 'P', 'L', 'U'}, where='_references')
+        if g(DOT):
+            return ('raise', 'DotException', ('rewind', 1))
+        return (('escape', 'next(i)'), False)
+    ok, why, rows = compare_table(paths, ev.bitnames, oracle, proj, vocab, alias=char_alias(paths, 'next(i)'), where='_references')
     ctx.count('decision_table_rows', rows)
     ctx.ob(rule, f'{WP}:WcParse._references/table', ok, repo.loc(WP, fi.node), 'documented table (DESIGN appendix B)', f'{rows} rows agree' if ok else why[:300],
-           witness="fnmatch('usr/bin', 'usr[\\\\\\\\]bin', flags=FORCEWIN) must be True: under FORCEWIN an escaped backslash is a separator, also inside brackets")
+           witness="fnmatch('usr/bin', 'usr[\\\\\\\\]bin', flags=FORCEWIN) must be True: under FORCEWIN an escaped backslash is a separator, also inside brackets; "
+                   "globmatch('a//b', 'a\\\\/b') must be True: a written separator stands for a run of separators")
+    # ---- the two splitters
+    for mod, cls, has_pathname in ((WP, 'WcSplit', True), ('glob', '_GlobSplit', False)):
+        f2 = repo.func(mod, f'{cls}._references')
+        ev2, paths2 = tabulate_method(repo, mod, f'{cls}._references', {'bslash_abort': Opaque('BA'), 'pathname': Opaque('P'), 'unix': Opaque('U')},
+                                      [Opaque('i'), Opaque('Q')])
+
+        def proj2(p: Any) -> Any:
+            if p.raised:
+                return ('raise', p.raised)
+            return ('ret', norm(p.ret, p) or None) if not has_pathname else ('ret',)
+
+        def oracle2(g: Any) -> Any:
+            if g(BS):
+                if g('Q') and g('BA'):
+                    return ('raise', 'PathNameException')
+                return ('ret', '\\') if not has_pathname else ('ret',)
+            if g(SL):
+                if g('Q') and (not has_pathname or g('P')):
+                    return ('raise', 'PathNameException')
+                return ('ret', '/') if not has_pathname else ('ret',)
+            return ('ret', None) if not has_pathname else ('ret',)
+        ok2, why2, rows2 = compare_table(paths2, ev2.bitnames, oracle2, proj2, vocab, alias=char_alias(paths2, 'next(i)'), where=f'{cls}._references')
+        ctx.count('decision_table_rows', rows2)
+        ctx.ob(rule, f'{mod}:{cls}._references/table', ok2, repo.loc(mod, f2.node),
+               'raise PathNameException iff in a bracket and (`\\\\` with bslash_abort, or `\\/` ' + ('with pathname)' if has_pathname else 'always); returns the consumed separator'),
+               f'{rows2} rows agree' if ok2 else why2[:300],
+               witness="globmatch('a[\\\\/]b', 'a[\\\\/]b') -- an escaped separator inside brackets aborts the bracket, in the splitter exactly as in the parser")
 
 
 def rule_case_fold_consistency(ctx: Ctx, rule: str) -> None:
@@ -343,17 +382,31 @@ FORWARD_MODULES = ('fnmatch', 'glob', 'pathlib', '_wcparse', '_wcmatch')
 FORWARD_SKIP = {'self', 'cls', 'flags'}  # flags are transformed on the way (checked by the flag-flow rules)
 
 
+def _mentions(v: Any, p: str) -> bool:
+    import re as _re
+    if isinstance(v, BV):
+        return v.origin == p
+    if isinstance(v, (Opaque, Tok)):
+        return _re.search(rf'(?<![\w.]){_re.escape(p)}(?![\w])', _tag(v)) is not None
+    if isinstance(v, (tuple, list)):
+        return any(_mentions(x, p) for x in v)
+    return False
+
+
 def rule_same_name_forwarding(ctx: Ctx, rule: str) -> None:
-    ctx.text(rule, 'same-name forwarding: when a function of the public layers (fnmatch, glob, pathlib, _wcparse entry points, matcher '
-                   'objects) calls a package function that has a parameter with the same name as one of its own parameters, the call '
-                   'binds that parameter to the caller\'s own parameter (never to another value, never silently to the default)')
+    ctx.text(rule, 'same-name forwarding (on call events of the decision tables, i.e. on argument values): when a function of the public '
+                   'layers (fnmatch, glob, pathlib, _wcparse entry points, matcher objects) calls a package function that has a '
+                   'parameter with the same name as one of its own parameters, the value bound to that parameter is derived from the '
+                   "caller's own parameter on every path (never another value, never silently the default; `None` only on a path that "
+                   'tested the parameter)')
     from ..callgraph import resolve_callee
+    from .common import api_table, bind_call
     repo = ctx.repo
     n = 0
     for mod in FORWARD_MODULES:
         m = repo.mod(mod)
         for fi in m.functions.values():
-            if not hasattr(fi.node, 'args') or fi.qualname.startswith('<lambda'):
+            if not hasattr(fi.node, 'args') or fi.qualname.startswith('<lambda') or fi.parent is not None:
                 continue
             if mod in ('_wcparse',) and fi.qualname not in ('compile',):
                 continue  # the expansion pipeline below the entry points re-uses these names for derived values
@@ -364,61 +417,97 @@ def rule_same_name_forwarding(ctx: Ctx, rule: str) -> None:
             own = [p for p in fi.params() if p not in FORWARD_SKIP]
             if not own:
                 continue
-            reassigned = {t.id for s in walk_no_nested(fi.node) if isinstance(s, (ast.Assign, ast.AugAssign))
-                          for t in (s.targets if isinstance(s, ast.Assign) else [s.target]) if isinstance(t, ast.Name)}
-            for c in [x for x in walk_no_nested(fi.node) if isinstance(x, ast.Call)]:
-                r = resolve_callee(repo, fi, c)
-                if not isinstance(r, list) or not r:
-                    continue
-                callee = r[0]
-                if not hasattr(callee.node, 'args'):
-                    continue
-                if fi.fq == '_wcparse:compile' and callee.fq != '_wcparse:compile_pattern':
-                    continue
-                cparams = callee.params()
-                if callee.cls and callee.parent is None and cparams and cparams[0] in ('self', 'cls'):
-                    cparams = cparams[1:]
-                kwonly = {a.arg for a in callee.node.args.kwonlyargs}
-                has_star = any(isinstance(a, ast.Starred) for a in c.args) or any(k.arg is None for k in c.keywords)
-                if has_star:
-                    continue
-                for p in own:
-                    if p not in cparams:
+            try:
+                ev, paths = api_table(repo, mod, fi.qualname, max_paths=512)
+            except AnalysisError:
+                ctx.count(f'{rule}:functions not tabulated')
+                continue
+            verdict: dict[tuple[str, str], tuple[bool, str, Any]] = {}
+            for p_ in paths:
+                for e in p_.of('call'):
+                    _k, name, args, kwargs, node, _c = e
+                    if any(isinstance(a, ast.Starred) for a in node.args) or any(k.arg is None for k in node.keywords):
                         continue
-                    idx = cparams.index(p)
-                    arg = next((k.value for k in c.keywords if k.arg == p), None)
-                    if arg is None and p not in kwonly and idx < len(c.args):
-                        arg = c.args[idx]
-                    n += 1
-                    from ..boolform import resolved_src
-                    src = resolved_src(fi.node, arg) if arg is not None else '<not passed>'
-                    ok = arg is not None and (src == p or (isinstance(arg, ast.IfExp) and p in src) or
-                                              (src in (f'os.fspath({p})', f'os.fspath({p}) if {p} is not None else None')) or
-                                              (p in reassigned and p in src))
-                    if callee.fq == fi.fq and src != p:
-                        ok = p in src  # recursion with a derived value (exclude= pass)
-                    ctx.ob(rule, f'{fi.fq}->{callee.fq.split(":")[1]}/{p}', ok, repo.loc(mod, c), f'{p}={p}', f'{p}={src}',
-                           witness=f"{fi.qualname}(..., {p}=X) must hand X to {callee.qualname}: e.g. glob(root_dir=…)/dir_fd=/exclude= silently ignored or crossed")
+                    r = resolve_callee(repo, fi, node)
+                    if not isinstance(r, list) or not r:
+                        continue
+                    callee = r[0]
+                    if not hasattr(callee.node, 'args'):
+                        continue
+                    if fi.fq == '_wcparse:compile' and callee.fq != '_wcparse:compile_pattern':
+                        continue
+                    cparams = [x for x in callee.params() if x not in ('self', 'cls')]
+                    kwonly = {a.arg for a in callee.node.args.kwonlyargs}
+                    pos = [x for x in cparams if x not in kwonly]
+                    bound = dict(kwargs)
+                    for i_, a in enumerate(args):
+                        if i_ < len(pos):
+                            bound[pos[i_]] = a
+                    for p in own:
+                        if p not in cparams:
+                            continue
+                        key = (callee.fq.split(':')[1], p)
+                        if p not in bound:
+                            verdict[key] = (False, '<not passed>', node)
+                            continue
+                        v = bound[p]
+                        ok = _mentions(v, p) or (v is None and any(_mentions(Opaque(a), p) for a in p_.decisions))
+                        if key not in verdict or (verdict[key][0] and not ok):
+                            verdict[key] = (ok, _tag(v)[:80], node)
+            for (cq, p), (ok, got, node) in sorted(verdict.items()):
+                n += 1
+                ctx.ob(rule, f'{fi.fq}->{cq}/{p}', ok, repo.loc(mod, node), f'{p} = a value derived from the parameter {p}', f'{p}={got}',
+                       witness=f"{fi.qualname}(..., {p}=X) must hand X to {cq}: e.g. glob(root_dir=…)/dir_fd=/exclude= silently ignored or crossed")
     ctx.floor(rule, 'same-name parameter hand-overs', n, 60)
 
 
 def rule_match_siblings(ctx: Ctx, rule: str) -> None:
-    ctx.text(rule, 'WcRegexp.match and WcRegexp.filter build _Match from the same five fields in the same order and pass root_dir / dir_fd '
-                   'alike; _Match.__init__ stores every parameter in the like-named attribute')
+    ctx.text(rule, 'WcRegexp.match and WcRegexp.filter (decision tables with call events, helpers of the class inlined): a falsy '
+                   'argument returns False / [] without matching; otherwise one _Match per file name is built from os.fspath(name) and '
+                   'the five stored fields, each in its own slot, and .match receives root_dir (fspath-ed, None kept) and dir_fd; '
+                   '_Match.__init__ stores every parameter in the like-named attribute')
+    from .common import api_table, bind_call
     repo = ctx.repo
-    want = ['self._include', 'self._exclude', 'self._real', 'self._path', 'self._follow']
-    for meth in ('match', 'filter'):
+    want = {'include': Opaque('self._include'), 'exclude': Opaque('self._exclude'), 'real': Opaque('self._real'),
+            'path': Opaque('self._path'), 'follow': Opaque('self._follow')}
+    helpers = {f.fq for f in repo.cls('_wcmatch', 'WcRegexp').methods.values()}
+    for meth, arg, elem in (('match', 'filename', 'filename'), ('filter', 'filenames', 'elem(filenames)')):
         f = repo.func('_wcmatch', f'WcRegexp.{meth}')
-        cs = [c for c in walk_no_nested(f.node) if isinstance(c, ast.Call) and norm_src(c.func) == '_Match']
-        ok = len(cs) == 1 and norm_src(cs[0].args[0]) == 'os.fspath(filename)' and [norm_src(a) for a in cs[0].args[1:]] == want
-        ctx.ob(rule, f'_wcmatch:WcRegexp.{meth}/_Match-arguments', ok, repo.loc('_wcmatch', cs[0] if cs else f.node), '_Match(os.fspath(filename), ' + ', '.join(want) + ')',
-               norm_src(cs[0])[:140] if cs else 'none', witness='swapping _real and _path makes REALPATH matchers ignore the file system')
-        outer = [c for c in walk_no_nested(f.node) if isinstance(c, ast.Call) and isinstance(c.func, ast.Attribute) and c.func.attr == 'match' and
-                 isinstance(c.func.value, ast.Call) and norm_src(c.func.value.func) == '_Match']
-        kw = {k.arg: norm_src(k.value) for k in outer[0].keywords} if outer else {}
-        okk = bool(outer) and set(kw) == {'root_dir', 'dir_fd'} and kw['dir_fd'] == 'dir_fd' and \
-            kw['root_dir'] in ('os.fspath(root_dir) if root_dir is not None else None', 'rdir')
-        ctx.ob(rule, f'_wcmatch:WcRegexp.{meth}/match-arguments', okk, repo.loc('_wcmatch', f.node), '.match(root_dir=<fspath of root_dir>, dir_fd=dir_fd)', str(kw))
+        ev, paths = api_table(repo, '_wcmatch', f'WcRegexp.{meth}', inline=True, inline_only=helpers)
+        bad_c, bad_m, bad_e = [], [], []
+        for p in paths:
+            cons = p.calls_to('_wcmatch:_Match')
+            if p.decisions.get(arg) is False:
+                if cons or p.ret not in (False, []):
+                    bad_e.append(f'falsy {arg}: returns {p.ret!r}, {len(cons)} _Match built')
+                continue
+            if len(cons) != 1:
+                bad_c.append(f'{len(cons)} _Match constructions on a path')
+                continue
+            b = bind_call(repo, '_wcmatch:_Match', cons[0][1], cons[0][2])
+            if b.get('filename') != Opaque(f'os.fspath({elem})'):
+                bad_c.append(f'filename={b.get("filename")!r}')
+            for k, v in want.items():
+                if b.get(k) != v:
+                    bad_c.append(f'{k}={b.get(k)!r}')
+            if meth == 'filter' and not any(c.startswith('for:filenames') for c in cons[0][3]):
+                bad_c.append('_Match built outside the per-name iteration')
+            ms = p.calls_to(lambda s_: s_.startswith('_wcmatch:_Match(') and s_.endswith(').match'))
+            if len(ms) != 1:
+                bad_m.append(f'{len(ms)} .match calls')
+                continue
+            mb = bind_call(repo, '_wcmatch:_Match.match', ms[0][1], ms[0][2])
+            notnone = p.decisions.get('root_dir is not None')
+            exp_rd = Opaque('os.fspath(root_dir)') if notnone else None
+            if notnone is None or mb.get('root_dir') != exp_rd or mb.get('dir_fd') != Opaque('dir_fd') or set(mb) != {'root_dir', 'dir_fd'}:
+                bad_m.append(f'root_dir is not None={notnone}: {mb}')
+        ctx.ob(rule, f'_wcmatch:WcRegexp.{meth}/_Match-arguments', not bad_c and len(paths) >= 3, repo.loc('_wcmatch', f.node),
+               '_Match(os.fspath(<name>), ' + ', '.join(f'self._{k}' for k in want) + '), one per name',
+               'as expected' if not bad_c else '; '.join(bad_c[:3]), witness='swapping _real and _path makes REALPATH matchers ignore the file system')
+        ctx.ob(rule, f'_wcmatch:WcRegexp.{meth}/match-arguments', not bad_m and len(paths) >= 3, repo.loc('_wcmatch', f.node),
+               '.match(root_dir=<fspath of root_dir, None kept>, dir_fd=dir_fd)', 'as expected' if not bad_m else '; '.join(bad_m[:2])[:200])
+        ctx.ob(rule, f'_wcmatch:WcRegexp.{meth}/falsy-argument', not bad_e, repo.loc('_wcmatch', f.node),
+               'returns False / [] without building a matcher', 'as expected' if not bad_e else bad_e[0])
     init = repo.func('_wcmatch', '_Match.__init__')
     pairs = {norm_src(s.targets[0]): norm_src(s.value) for s in walk_no_nested(init.node) if isinstance(s, ast.Assign)}
     want2 = {f'self.{p}': p for p in ('filename', 'include', 'exclude', 'real', 'path', 'follow')}
@@ -455,32 +544,80 @@ def rule_lookahead_putback(ctx: Ctx, rule: str) -> None:
     ctx.floor(rule, 'scan loops', n, 3)
 
 
+def inverse_cleanup_table(repo: Repo) -> list:
+    """Decision table (with events) of WcParse.clean_up_inverse; the loop body is abstracted to one placeholder."""
+    def build() -> list:
+        from ..symeval import SymEval, Obj, Opaque
+        ev = SymEval(repo, inline=False)
+        fn = repo.func(WP, 'WcParse.clean_up_inverse')
+        pr = [p for p in fn.params() if p != 'self']
+        if len(pr) < 2:
+            raise AnalysisError('clean_up_inverse: expected (current, nested)')
+        args = {p: Opaque(p) for p in pr[2:]}  # any further parameter is an input the table may branch on
+        args.update({pr[0]: Opaque('current'), pr[1]: Opaque('nested')})
+        return ev.tabulate(fn, args, Obj((WP, 'WcParse')))
+    return cached(repo, 'inverse_cleanup_table', build)
+
+
+def _dec(p: Any, pred: Any) -> bool | None:
+    hits = [v for k, v in p.decisions.items() if pred(k)]
+    return hits[0] if len(hits) == 1 else None
+
+
 def rule_inverse_cleanup(ctx: Ctx, rule: str) -> None:
-    ctx.text(rule, 'clean_up_inverse: the rest-of-pattern slot of `!(…)` is closed with the end-of-name assertion (_EOP in name mode, '
-                   'path_eop in path mode) unless the group is nested; the placeholder is replaced by rest + close template; the counter '
-                   'of open inverse groups is cleared')
+    ctx.text(rule, 'clean_up_inverse (decision table over inv_ext / placeholder test / nested / pathname / capture, loop body abstracted): '
+                   'the rest-of-pattern slot of `!(…)` is closed with the end-of-name assertion (_EOP in name mode, path_eop in path '
+                   'mode) unless the group is nested, before the rest is joined; the placeholder is replaced by rest + close template '
+                   'formatted with the placeholder itself; the counter of open inverse groups is cleared')
     repo = ctx.repo
     fi = repo.func(WP, 'WcParse.clean_up_inverse')
-    q = fq(fi)
-    apps = [c for c in q.calls(lambda s: s == 'content.append')]
-    ok = len(apps) == 1 and isinstance(apps[0].args[0], ast.IfExp) and q.guarded(apps[0], 'nested', 'F')
-    if ok:
-        e = apps[0].args[0]
-        t, b, o = norm_src(e.test), norm_src(e.body), norm_src(e.orelse)
-        ok = (t, b, o) in (('not self.pathname', '_EOP', 'self.path_eop'), ('self.pathname', 'self.path_eop', '_EOP'))
-    ctx.ob(rule, f'{WP}:WcParse.clean_up_inverse/end-assertion', ok, repo.loc(WP, apps[0] if apps else fi.node),
-           'if not nested: content.append(_EOP if not self.pathname else self.path_eop)', norm_src(apps[0])[:90] if apps else 'none',
+    site = repo.loc(WP, fi.node)
+    paths = inverse_cleanup_table(repo)
+    eop = repo.const(WP, '_EOP')
+    close = repo.const(WP, '_EXCLA_GROUP_CLOSE')
+    writes = [p for p in paths if p.of('setitem')]
+    ctx.floor(rule, 'placeholder rewriting paths', len(writes), 4)
+    bad_end, bad_close, bad_test = [], [], []
+    for p in writes:
+        sets = p.of('setitem')
+        _k, base, idx, val, _n, _c = sets[0]
+        nested = _dec(p, lambda k: k == 'nested')
+        pathname = _dec(p, lambda k: k == 'self.pathname')
+        isph = _dec(p, lambda k: k.startswith('isinstance(') and 'InvPlaceholder' in k and f'{_tag(base)}[{_tag(idx)}]' in k)
+        names = [e[1] for e in p.events if e[0] == 'call']
+        apps = [e for e in p.events if e[0] == 'call' and e[1].endswith('.append')]
+        joins = [i for i, e in enumerate(p.events) if e[0] == 'call' and e[1] == "''.join"]
+        if len(sets) != 1 or isph is not True:
+            bad_test.append(str(p.decisions))
+        if nested is True:
+            if apps:
+                bad_end.append(f'nested: appends {apps[0][2]}')
+        elif nested is False:
+            want = Opaque('self.path_eop') if pathname else eop
+            if len(apps) != 1 or apps[0][2] != [want] or not joins or p.events.index(apps[0]) > joins[0] or \
+                    not apps[0][1].startswith(f'{_tag(base)}[') or pathname is None:
+                bad_end.append(f'pathname={pathname}: appends {[a[2] for a in apps]}')
+        else:
+            bad_end.append('not decided on nested')
+        parts = val.parts if isinstance(val, Tok) else ()
+        want_close = f'format({close!r}; str({_tag(base)}[{_tag(idx)}]))'
+        if len(parts) != 2 or parts[1] != want_close or "''.join(" not in str(parts[0]):
+            bad_close.append(repr(val)[:120])
+    ctx.ob(rule, f'{WP}:WcParse.clean_up_inverse/end-assertion', not bad_end, site,
+           'not nested: rest.append(_EOP if not self.pathname else self.path_eop) before the join; nested: nothing appended',
+           'as expected' if not bad_end else '; '.join(bad_end[:2]),
            witness="globmatch('ab/', '!(a)', EXTGLOB): in path mode the negation must also stop at a separator")
-    early = [n for n in fi.node.body if isinstance(n, ast.If) and norm_src(n.test) == 'not self.inv_ext' and any(isinstance(s, ast.Return) for s in n.body)]
-    reset = [s for s in fi.node.body if isinstance(s, ast.Assign) and norm_src(s) == 'self.inv_ext = 0']
-    ctx.ob(rule, f'{WP}:WcParse.clean_up_inverse/counter', len(early) == 1 and len(reset) == 1, repo.loc(WP, fi.node), 'returns early when no inverse group is open; clears inv_ext at the end',
-           f'early={len(early)} reset={len(reset)}')
-    cl = [c for c in walk_no_nested(fi.node) if isinstance(c, ast.Call) and norm_src(c.func) == '_EXCLA_GROUP_CLOSE.format']
-    okc = len(cl) == 1 and norm_src(cl[0].args[0]) == 'str(current[index])'
-    ctx.ob(rule, f'{WP}:WcParse.clean_up_inverse/close-template', okc, repo.loc(WP, fi.node), '_EXCLA_GROUP_CLOSE.format(str(current[index]))', norm_src(cl[0]) if cl else 'none',
+    quiet = [p for p in paths if _dec(p, lambda k: k == 'self.inv_ext') is False]
+    busy = [p for p in paths if _dec(p, lambda k: k == 'self.inv_ext') is True]
+    okq = bool(quiet) and all(len(p.events) == 1 for p in quiet)
+    okb = bool(busy) and all(p.of('store') and p.of('store')[-1][1:3] == ('self.inv_ext', 0) and not p.of('store')[-1][4] for p in busy)
+    ctx.ob(rule, f'{WP}:WcParse.clean_up_inverse/counter', okq and okb and len(quiet) + len(busy) == len(paths), site,
+           'returns without effect when no inverse group is open; otherwise clears inv_ext after the scan', f'quiet={okq} busy={okb}')
+    ctx.ob(rule, f'{WP}:WcParse.clean_up_inverse/close-template', not bad_close, site,
+           "placeholder := ''.join(rest)… + _EXCLA_GROUP_CLOSE.format(str(placeholder))", 'as expected' if not bad_close else bad_close[0],
            witness="fnmatch('b', '!(a)', E): the placeholder carries the star that follows the assertion")
-    ph = [c for c in walk_no_nested(fi.node) if isinstance(c, ast.Call) and norm_src(c.func) == 'isinstance' and 'InvPlaceholder' in norm_src(c)]
-    ctx.ob(rule, f'{WP}:WcParse.clean_up_inverse/placeholder-test', len(ph) == 1, repo.loc(WP, fi.node), 'isinstance(current[index], InvPlaceholder)', str(len(ph)))
+    ctx.ob(rule, f'{WP}:WcParse.clean_up_inverse/placeholder-test', not bad_test, site,
+           'an element is rewritten only when it is an InvPlaceholder', 'as expected' if not bad_test else bad_test[0])
 
 
 def rule_sequence_shape(ctx: Ctx, rule: str) -> None:
